@@ -38,7 +38,9 @@ THEOREMS = ["C10_loop_is_per_sample_add", "C10_entry_is_dt_times_sample_count", 
             "C10_integrate_all_active_sums_to_length", "C10_ring_index_spec", "C10_cyl_region_met_in_at_most_two_intervals",
             "C10_axisymmetric_cell_met_in_at_most_two_intervals", "C10_rejected_assignment_changes_nothing",
             "C10_accepted_assignment_forgets_the_past", "C10_mask_assignment_roundtrip", "C10_ctrunc_respects_Qeq",
-            "C10_executable_samples_give_the_code_cells", "C10_integrate_cartesian_cell_error_at_most_one_step"]
+            "C10_executable_samples_give_the_code_cells", "C10_integrate_cartesian_cell_error_at_most_one_step",
+            "C10_sign_q3_is_sign_of_real", "C10_model_sector_tests_are_convex", "C10_cyl_sector_cell_met_in_at_most_two_intervals",
+            "C10_cell_error_two_steps_for_rational_brackets", "C10_pipeline0d_every_history_matrix_is_mean"]
 
 PHI_TABLE = [(30, n) for n in (1, 2, 3, 4, 6, 12)] + [(45, n) for n in (1, 2, 4, 8)] + \
             [(60, n) for n in (1, 2, 3, 6)] + [(90, n) for n in (1, 2, 4)] + [(120, n) for n in (1, 3)] + \
@@ -785,7 +787,12 @@ def run(ctx):
         "IEEE double rounding, libm sqrt/atan2/fmod, raysect Point3D.transform / Vector3D.length / AffineMatrix3D, "
         "ray-primitive intersection of Box / Cylinder / Subtract (their hit points are inputs of the model)",
         "the value |end-start| enters the model as the implementation's own double (checked: len^2 within 2^-30 of the exact square)",
-        "geometric fact used as a hypothesis: a straight line meets an annular-sector cell in at most two intervals",
+        "axioms of the standard library's real numbers under the three sqrt(3) theorems (C10_sign_q3_is_sign_of_real, "
+        "C10_model_sector_tests_are_convex, C10_cyl_sector_cell_met_in_at_most_two_intervals): ClassicalDedekindReals.sig_forall_dec, "
+        "ClassicalDedekindReals.sig_not_dec, FunctionalExtensionality.functional_extensionality_dep; every other theorem is closed "
+        "under the global context",
+        "not formalised: gsector = j exactly on the wedge between borders j and j+1 (nphi > 1); rational brackets arbitrarily close "
+        "to the square-root end points of ring cells",
     ]
     ctx.assumptions += [
         "the ray stays inside the grid (RayTransferBox / RayTransferCylinder shrink the bounding primitive by 1e-5 cell); "
@@ -805,9 +812,9 @@ def run(ctx):
     impl = Impl()
     rng = ctx.rng
     quick = ctx.quick
-    nmax = 120 if quick else 250
-    n_grids = 36 if quick else 240
-    rays_per = 8 if quick else 16
+    nmax = 90 if quick else 250
+    n_grids = 28 if quick else 240
+    rays_per = 6 if quick else 16
 
     # ---- corpus of past disagreements first ---------------------------------------------------
     corpus_dir = os.path.join(os.path.dirname(os.path.dirname(os.path.abspath(__file__))), "corpus", "C10")
@@ -890,7 +897,7 @@ def run(ctx):
 
     # ---- angular formula of the code against the exact sector decision ----------------------------
     phi_cases = []
-    for _ in range(150 if quick else 2000):
+    for _ in range(100 if quick else 2000):
         dphi, nphi = rng.choice([t for t in PHI_TABLE if t[1] > 1])
         k = rng.random()
         if k < 0.7:
@@ -949,17 +956,17 @@ def run(ctx):
         paths.append((ctx.write_gen("cases_%03d.v" % fi, txt), ids))
     # ---- pipelines.py: histories of observations on the same pipeline object, driven through its own methods ----
     pipe_hist = []
-    for i in range(36 if quick else 300):
+    for i in range(24 if quick else 300):
         dim = i % 3
         hist = S.gen_pipeline_history(rng, dim)
         pipe_hist.append((dim, hist, S.drive_pipeline_api(dim, hist)))
     pipe_cases = [pipe_case_coq(dim, hist, outs) for dim, hist, outs in pipe_hist]
     # ---- emitters: state-machine histories and argument validation (model: Model/C10_Emitter.v) ----
-    em_lines, em_dist = E.emitter_histories(rng, impl, 24 if quick else 240, lambda r, k, e, b: gen_grid(r, k, e, False, 0),
-                                            variant_form, pre_fails)
-    val_lines = E.validation_cases(rng, impl, 40 if quick else 400, pre_fails)
+    em_lines, em_dist = S.guard(pre_fails, "emitter assignment histories", {"seed": ctx.seed}, E.emitter_histories, rng, impl,
+                                16 if quick else 240, lambda r, k, e, b: gen_grid(r, k, e, False, 0), variant_form, pre_fails) or ([], {})
+    val_lines = E.validation_cases(rng, impl, 30 if quick else 400, pre_fails)
     offp_stats = {"rays": 0, "cells_compared": 0, "periodic": 0, "merged": 0, "traced_rays": 0}
-    offp_lines = E.offperiod_cases(rng, impl, 30 if quick else 300, S, pre_fails, offp_stats)
+    offp_lines = E.offperiod_cases(rng, impl, 20 if quick else 300, S, pre_fails, offp_stats)
     aux_all = mask_checks + phi_cases + chord_cases + pipe_cases + emission_lines + em_lines + val_lines + offp_lines
     # ---- translator: the numeric constants of the model regenerated from the current source + tie lemma ----
     try:
